@@ -332,10 +332,24 @@ def check_case(ctx, case, upath, rng):
                 viol("dump", f"containing-structure-dump-raises:{type(e).__name__}", error=lib.exc_sig(e))
 
 
+def witnesses(ctx):
+    """Pinned witness of the open finding K1 (top-level union whose largest member is an anonymous structure)."""
+    import random
+
+    top = N_struct([F(None, N_struct([F("a", N_int("uint32")), F("b", N_int("uint32"))])), F("c", N_int("uint8"))],
+                   name="T", union=True, decl="top")
+    case = gen.finish_case([{"d": "struct", "node": top}], top, {})
+    case["named"] = {}
+    check_case(ctx, case, [], random.Random(1))
+    ctx.cell("pinned-witnesses")
+
+
 def run(ctx):
     mon = UnionMonitor(ctx)
     mon.install()
     try:
+        if ctx.shard == 0:
+            witnesses(ctx)
         for i in range(N_CASES[ctx.tier]):
             if ctx.out_of_time():
                 break
